@@ -14,6 +14,7 @@ LEVEL_NOTE = "necessary conditions only"
 def run(ctx):
     from . import guardvocab
     guardvocab.G0(ctx, effects={'release', 'join', 'acquire'})
+    guardvocab.G1(ctx, effects={'release', 'join', 'acquire'})
     g_sync.run_all(ctx, ["Y2", "Y3", "Y4", "O4", "Y1c"])
     from . import atomics
     atomics.O1(ctx)
